@@ -150,13 +150,19 @@ def ref_ops(frame, mdl):
 def _ref_ops(frame, mdl):
     if True:
         e = rc.dec_encap(frame)
-        if e['command'] != rc.CMD['send_rr_data']:        # status / options / context of a request header are free fields
-            return ('rejected', 'not-send-rr-data')
+        # status / options / context of a request header are free fields; the simulator serves SendRRData and SendUnitData
+        # through one parser, so an unconnected item pair under command 0x70 (or a connected pair under 0x6F) is the same
+        # request -- the command code is not a length/count/offset field
+        if e['command'] not in (rc.CMD['send_rr_data'], rc.CMD['send_unit_data']):
+            return ('rejected', 'not-send-data')
         sd = rc.dec_send_data(e['payload'])
         items = sd['items']
-        if len(items) != 2 or items[0] != (0, b'') or items[1][0] != 0x00B2:
+        if len(items) == 2 and items[0] == (0, b'') and items[1][0] == 0x00B2:
+            msg = items[1][1]
+        elif len(items) == 2 and items[0][0] == 0x00A1 and len(items[0][1]) == 4 and items[1][0] == 0x00B1 and len(items[1][1]) >= 2:
+            msg = items[1][1][2:]           # connected data: sequence count, then the request
+        else:
             return ('rejected', 'cpf-shape')
-        msg = items[1][1]
         if msg[:1] == b'\x52':
             us = rc.dec_unconnected_send(msg)
             msg = us['message']
@@ -260,8 +266,12 @@ def spell(req, mdl):
             op['raw'] = bytes(d).hex()
         elif svc == 'get_attr':
             rc._need(len(d) == 0, 'get_attr payload')
-    except rc.RefDecodeError:
-        return {'svc': svc, 'malformed': True}
+    except rc.RefDecodeError as exc:
+        text = str(exc)
+        why = ('string-body-truncated' if 'body truncated' in text else 'string-length-truncated' if 'length truncated' in text
+               else 'partial-element' if 'whole number' in text else 'short-header' if 'header' in text or 'payload' in text
+               else 'unknown-data-type' if 'unknown data type' in text else 'other')
+        return {'svc': svc, 'malformed': True, 'why': why}
     return op
 
 
@@ -316,6 +326,10 @@ def segment(draw):
            'field': draw(st.sampled_from(['length', 'command', 'session', 'status', 'options', 'cpf_count', 'item0_type', 'item0_len', 'item1_type',
                                           'item1_len', 'service', 'path_size', 'body'])),
            'value': draw(st.sampled_from(['zero', 'one', 'minus1', 'plus1', 'ff', 'random']))}
+    if v[0] == 'bundle' and draw(st.integers(0, 2)) == 0:
+        seg['member_mutation'] = [draw(st.integers(0, 7)), draw(st.sampled_from(['append-stray', 'drop-tail'])), draw(st.integers(0, 2))]
+        if draw(st.booleans()):
+            seg['mutation'] = 'none'
     return seg
 
 
@@ -400,7 +414,15 @@ def build_stream(case, handle, addrs):
                     wrap = v[1].get('wrap', True) or v[1]['svc'] == 'read_frag'
                     msg = rc.unconnected_send(msg) if wrap else msg
                 else:
-                    msg = rc.unconnected_send(rc.req_multiple([enc(o) for o in v[1]]))
+                    members = [enc(o) for o in v[1]]
+                    mm = seg.get('member_mutation')
+                    if mm:      # a member whose own payload is inconsistent inside a bundle whose framing stays consistent
+                        k = mm[0] % len(members)
+                        if mm[1] == 'append-stray':
+                            members[k] = members[k] + bytes([0xA5, 0x5A, 0x01][:1 + mm[2] % 3])
+                        elif len(members[k]) > 6:
+                            members[k] = members[k][:-(1 + mm[2] % 3)]
+                    msg = rc.unconnected_send(rc.req_multiple(members))
             except Exception:
                 continue
             f = rc.rr_frame(handle, msg, ctx())
@@ -552,7 +574,7 @@ def _pred(case, stats):
             want = base.snapshot()
             diff = [n for n in after if after[n] != want[n]]
             if payload_malformed and not whole_failed:
-                sig = 'malformed-request-altered-tags:service-payload'
+                sig = 'malformed-request-altered-tags:service-payload:' + payload_malformed[0].get('why', 'other')
             elif any(op is not None and op.get('malformed') and op.get('svc') is None for op in ops):
                 sig = 'malformed-request-altered-tags:member:' + [op['why'] for op in ops if op is not None and op.get('malformed') and op.get('svc') is None][0]
             else:
